@@ -206,6 +206,17 @@ def cases(rng, tier):
             continue
         yield "mp_wsgi_form %s %s" % (enc(ct), M.enc_chunks(ne))
         yield "mp_asgi_form %s %s" % (enc(ct), M.enc_chunks(M.rand_partition(rng, body)))
+    # a text field of a few kB handed over byte by byte (thousands of Data events for one field), default limits
+    for size in ((1500, 4000) if tier == "quick" else (1500, 4000, 12000)):
+        b = b"bd"
+        parts = [M.Part("big", ("line %d\r\n" * (size // 9) % tuple(range(size // 9))).encode("ascii")[:size]),
+                 M.Part("after", b"v")]
+        body = M.encode_form(b, parts)
+        one = [body[i:i + 1] for i in range(len(body))]
+        yield _stream("mp_stream", b, "utf8", 324, None, one)
+        yield _stream("mp_astream", b, "utf8", 324, None, one)
+        yield "mp_wsgi_form %s %s" % (enc("multipart/form-data; boundary=bd"), M.enc_chunks(one))
+        yield "mp_asgi_form %s %s" % (enc("multipart/form-data; boundary=bd"), M.enc_chunks(one))
     m = 300 if tier == "quick" else 6000
     for i in range(m):
         b = rng.choice(M.BOUNDARIES[:5])
